@@ -9,19 +9,21 @@ import (
 	"time"
 
 	"github.com/inbucket/inbucket/v3/pkg/config"
+	"github.com/inbucket/inbucket/v3/pkg/policy"
 	"github.com/inbucket/inbucket/v3/pkg/storage"
 	"github.com/rs/zerolog/log"
 )
 
 // Server defines an instance of the POP3 server.
 type Server struct {
-	config    config.POP3     // POP3 configuration.
-	store     storage.Store   // Mail store.
-	listener  net.Listener    // TCP listener.
-	wg        *sync.WaitGroup // Waitgroup tracking sessions.
-	notify    chan error      // Notify on fatal error.
-	tlsConfig *tls.Config     // TLS encryption configuration.
-	tlsState  *tls.ConnectionState
+	config     config.POP3        // POP3 configuration.
+	addrPolicy *policy.Addressing // Maps the USER argument to a mailbox name; nil = name as typed.
+	store      storage.Store      // Mail store.
+	listener   net.Listener       // TCP listener.
+	wg         *sync.WaitGroup    // Waitgroup tracking sessions.
+	notify     chan error         // Notify on fatal error.
+	tlsConfig  *tls.Config        // TLS encryption configuration.
+	tlsState   *tls.ConnectionState
 }
 
 // NewServer creates a new, unstarted, POP3 server.
@@ -48,6 +50,13 @@ func NewServer(pop3Config config.POP3, store storage.Store) (*Server, error) {
 		notify:    make(chan error, 1),
 		tlsConfig: tlsConfig,
 	}, nil
+}
+
+// UseAddressPolicy makes sessions map the name given to USER/APOP to a mailbox name the way the
+// other interfaces do (mailbox naming mode, letter case, +extension), so that logging in with
+// the address mail was sent to opens the mailbox that mail is in.  Must be called before Start.
+func (s *Server) UseAddressPolicy(apolicy *policy.Addressing) {
+	s.addrPolicy = apolicy
 }
 
 // Start the server and listen for connections
